@@ -307,6 +307,23 @@ def lookup_contract(ct, rep, rule="lookup-contract"):
         rep.fail(rule, ct.mod.path.name, "Tdf.__getitem__", rets[0] if rets else gi.node, "__getitem__ does not delegate to get_block(key)")
 
 
+def replace_refusals(ct, rep, rule="replace-refusals"):
+    """replace_block (and so every setter on a present type) may refuse only when the type is absent: the removal frees the
+    slot the new block needs, so capacity is never a reason."""
+    ff = ct.facts("replace_block")
+    fq = "Tdf.replace_block"
+    from .c07 import escaping
+    for e in ff.ev("raise"):
+        if not escaping(ff, e.node):
+            continue
+        tests = M.enclosing_tests(ff.f.node, e.stmt)
+        absent = any(br and norm(t).replace(" ", "").endswith("isNone") and any(norm(x) in ff.entry_names for x in ast.walk(t) if isinstance(x, ast.Name)) for t, br in tests)
+        if absent:
+            rep.ok(rule, f"{fq}: refuses when no entry of the block's type exists", nontrivial=True)
+        else:
+            rep.fail(rule, ct.mod.path.name, fq, e.stmt, f"replace_block refuses under `{' and '.join(norm(t) for t, br in tests) or 'no condition'}`: a present block can then not be replaced (e.g. on a full table) although removing it frees its slot")
+
+
 def run(prog, rep):
     ct = Container(prog)
     rep.explanation = (
@@ -323,4 +340,10 @@ def run(prog, rep):
     rep.attempt(M.dirty_entry, ct, rep, rule="table-pairing")
     rep.attempt(M.slot_position, ct, rep, rule="table-pairing/slot")
     rep.attempt(M.parse_on_enter, ct, rep)
+    rep.attempt(replace_refusals, ct, rep)
+    # 'at every point': a refused add/remove must not leave a phantom entry in the in-memory table
+    from ..codecs import Codecs
+    from .c07 import path_rules
+    cd = Codecs(prog)
+    rep.attempt(path_rules, ct, cd, rep, names=("add_block", "remove_block"), include_setters=False, prefix="refusal-leaves-table/")
     rep.not_decided += ["accessor agreement on concrete histories (follows from C10's pairing, not re-proved)"]
